@@ -45,6 +45,8 @@ var c16Bodies = []string{
 	"\tfor k%N% := 0; k%N% < 1; k%N%++ {\n\t\tif k%N% == 0 {\n\t\t\tcontinue\n\t\t}\n\t}",
 	"\tsw%N% := []int{}\n\tsw%N%[1] = 2",
 	"\tprint(fint(1))",
+	"\tif gv == 8 {\n\t} else if gv == 9 {\n\t} else {\n\t}",
+	"\tswitch gv {\n\tcase 5:\n\tdefault:\n\t}",
 }
 
 const c16Prelude = "gv := 3\ngs := \"g\"\nfunc fvoid() {\n\tprint(\"v\")\n}\nfunc fint(a int) int {\n\tif a > 1 {\n\t\treturn a\n\t}\n\tfor i := 0; i < 2; i++ {\n\t\tif i == a {\n\t\t\treturn i\n\t\t}\n\t}\n\treturn 0\n}\nfunc fmulti(a int) (int, string) {\n\treturn a + 1, \"m\"\n}\nfunc fempty() {\n}\n"
@@ -263,8 +265,13 @@ func CheckC16(r *Run) int {
 		sb.WriteString(c16Prelude)
 		for s := 0; s < slots; s++ {
 			item := c16Menu[c.Choose("construct", 0, len(c16Menu)-1)]
+			first := true
 			for strings.Contains(item, "%BODY%") {
-				body := fresh(c16Bodies[c.Choose("body", 0, len(c16Bodies)-1)])
+				body := ""
+				if first || !quick {
+					body = fresh(c16Bodies[c.Choose("body", 0, len(c16Bodies)-1)])
+				}
+				first = false
 				item = strings.Replace(item, "%BODY%", body, 1)
 			}
 			sb.WriteString(fresh(item) + "\n")
